@@ -34,6 +34,16 @@ claim("C04", "other",
       "decision-table extraction + writer/caller inventories over MIR + ordering enumeration of extracted terms",
       "DESIGN.md §3 C04")
 
+claim("C20", "other",
+      "Decided structurally on extracted decision tables for every path: reset_node is called iff recv_apply returns "
+      "ApplyAfterReset; ClusterState::apply_delta returns the OR-fold (from false) of status == ApplyAfterReset over member "
+      "deltas that have a local copy (evaluated on all (old flag, status) pairs under each path condition); process_delta "
+      "invokes the callback exactly once iff the flag is true and a callback is configured; process_message calls "
+      "process_delta exactly once on SYN-ACK/ACK with the received delta and nowhere else; no other user of the callback field.",
+      "Assumes Vec/BTreeMap iteration semantics. When a reset happens is C14's decision (R14.2/R14.3); the callback body is user code.",
+      "decision-table extraction from MIR + call/field-use inventories",
+      "DESIGN.md §3 C20")
+
 ALL = ["C%02d" % i for i in range(1, 21)]
 PENDING_REASON = "check under construction in this session (rules designed in DESIGN.md §3, not yet armed)"
 
